@@ -93,6 +93,12 @@ impl<'a> Quoted<'a> {
         while self.cur.is_some() {
             match self.cur {
                 None => return Err(Error::Unquoting("found early EOF".into())),
+                // a NUL character can neither be written back (`\\x00` is rejected) nor passed on to podman
+                Some('\0') => {
+                    return Err(Error::Unquoting(
+                        "NUL character not allowed in values".into(),
+                    ))
+                }
                 Some('\'' | '"')
                     if quote.is_none()
                         && (result.ends_with([' ', '\t', '\n']) || result.is_empty()) =>
